@@ -425,5 +425,49 @@ let () =
     (fun ~seed ~n emit ->
       let r = mk_rng (seed + 991) in
       nopanic_family r n (fun be us ->
-        lazy_emit emit (fun () -> case_line "c16.nopanic" be us) (fun () -> ("nopanic", "nopanic"))))
+        lazy_emit emit (fun () -> case_line "c16.nopanic" be us) (fun () -> ("nopanic", "nopanic"))));
+  register "c16.refs" ~doc:"oracle: location lists whose expressions carry entry references (call_ref / implicit_pointer / variable_value to DIEs of the same and of other units), 1-3 units of mixed versions and formats in one Dwarf::write; expected is the fixed token"
+    (fun ~seed ~n emit ->
+      let r = mk_rng (seed + 1777) in
+      let gen_case ~nunits ~pickv ~force_op =
+        let b = Buffer.create 256 in
+        let add x = Buffer.add_char b ' '; Buffer.add_string b (string_of_int x) in
+        Buffer.add_string b "c16.refs"; add (rand_int r 2); add nunits;
+        for _ = 1 to nunits do
+          let version = pickv () in
+          add version; add (rand_int r 2); add (if rand_bool r then 4 else 8);
+          add (1 + rand_int r 3);
+          let nlists = 1 + rand_int r 2 in
+          add nlists;
+          for _ = 1 to nlists do
+            let ne = 1 + rand_int r 3 in
+            add ne;
+            let pos = ref (1 + rand_int r 16) in
+            for _ = 1 to ne do
+              let kind = if version >= 5 then 1 + rand_int r 4 else 1 in
+              let bg = !pos in
+              let en = bg + 1 + rand_int r 64 in
+              pos := en + rand_int r 8;
+              add kind; add bg; add en;
+              let nops = 1 + rand_int r 3 in
+              add nops;
+              for j = 1 to nops do
+                let op = if j = 1 && force_op >= 0 then force_op else rand_int r 4 in
+                add op; add (rand_int r 3); add (rand_int r 3);
+                add (if op = 1 then (rand_int r 400) - 200 else rand_int r 300)
+              done
+            done
+          done
+        done;
+        Buffer.contents b in
+      let out c = if Streams.mine () then emit c "ok" "ok" else Streams.skip () in
+      (* every operation x every version pair of (referring unit, other unit) x reference direction *)
+      List.iter (fun v1 -> List.iter (fun v2 -> List.iter (fun op ->
+        let k = ref 0 in
+        out (gen_case ~nunits:2 ~pickv:(fun () -> incr k; if !k = 1 then v1 else v2) ~force_op:op);
+        out (gen_case ~nunits:1 ~pickv:(fun () -> v1) ~force_op:op))
+        [ 0; 1; 2 ]) [ 2; 3; 4; 5 ]) [ 2; 3; 4; 5 ];
+      for _ = 1 to n do
+        out (gen_case ~nunits:(1 + rand_int r 3) ~pickv:(fun () -> 2 + rand_int r 4) ~force_op:(-1))
+      done)
 let init () = ()
